@@ -199,8 +199,14 @@ def rule_grammar_spans(ctx):
     for name, idx, a in grammar.all_alts():
         if a["action"] and "args..arge" in a["action"].replace(" ", ""):
             names = {s["name"]: s for s in a["symbols"] if s["kind"] == "loc"}
-            ok = "args" in names and "arge" in names and [s["name"] for s in a["symbols"]].index("args") < [s["name"] for s in a["symbols"]].index("arge")
-            ctx.check(R, "grammar/%s#%d/parameter-range" % (name, idx + 1), ok, str(sorted(names)), (GR, a["line"]))
+            order = [s.get("name") for s in a["symbols"]]
+            ok = "args" in names and "arge" in names and order.index("args") < order.index("arge")
+            # the range starts where the first parameter starts (@L in front of the list) and ends where the last one ends
+            # (@R behind it): nothing but the list lies between the two markers, and neither is taken from a parenthesis
+            if ok:
+                ia, ie = order.index("args"), order.index("arge")
+                ok = names["args"]["value"] == "@L" and names["arge"]["value"] == "@R" and ie == ia + 2 and a["symbols"][ia + 1]["kind"] != "loc" and not str(a["symbols"][ia + 1].get("text", "")).strip().startswith('"')
+            ctx.check(R, "grammar/%s#%d/parameter-range" % (name, idx + 1), ok, "markers %s" % [(s.get("name"), s.get("value") or s.get("text")) for s in a["symbols"] if s.get("name") in ("args", "arge") or s["kind"] != "loc"][:8], (GR, a["line"]))
     # who may call ast::Meta::new (hand-written code)
     callers = []
     for f in facts.ast():
@@ -575,6 +581,9 @@ def rule_locations_carried(ctx, R="C04.15"):
                     for x in m["fields"]:
                         if x["name"].endswith("location") and x.get("e") is not None:
                             sites.append(("field `%s` of %s" % (x["name"], last(m["path"])), m, x["e"]))
+                elif m["k"] == "Call" and m["func"]["k"] == "Path" and re.fullmatch(r"(?:ir::)?Meta::new", m["func"]["path"]) and len(m["args"]) == 2 and not f.endswith("abstract_syntax_tree/ast.rs"):
+                    # the IR's Meta::new(&location, &file_id): a node located somewhere
+                    sites.append(("field `location` of a new Meta", m, m["args"][0]))
             for what, node, arg in sites:
                 a = strip(arg)
                 le = let_env(fn["body"], node)
